@@ -70,8 +70,14 @@ def types_equal(a, b, ignore_ws=False):
         return re.sub(r"\s+", "", a) == re.sub(r"\s+", "", b)
 
 
-def default_equal(exp, got):
-    """-> None if equal, else aspect suffix."""
+def default_equal(exp, got, as_code=False):
+    """-> None if equal, else aspect suffix. as_code: both are expression text (return defaults): compare as ASTs."""
+    if as_code and isinstance(exp, str) and isinstance(got, str):
+        try:
+            if ast_dump_expr(strip_code(exp)) == ast_dump_expr(strip_code(got)):
+                return None
+        except SyntaxError:
+            pass
     if exp is None:
         return None if (got in NONE_ALIASES if isinstance(got, (str, type(None))) else False) else "value:None->%s" % type(got).__name__
     if is_code(exp) or (isinstance(got, str) and is_code(got)):
@@ -136,7 +142,7 @@ def _cmp_entry(prefix, name, exp, got, ptags, policy, out, is_return=False):
             if "default" not in got:
                 out.append(Disc(prefix + "default:lost", where, "expected %r, got none" % (exp["default"],), ptags))
             else:
-                why = default_equal(exp["default"], got["default"])
+                why = default_equal(exp["default"], got["default"], as_code=is_return)
                 if why is not None:
                     out.append(Disc(prefix + "default:" + why, where, "expected %r got %r" % (exp["default"], got["default"]), ptags))
         elif "default" in got:
